@@ -41,7 +41,7 @@ CLASH_SKELETONS = ["T1", "T2", "T3", "T4", "M1", "M2", "M3", "X1", "U1", "U2"]
 FLAWS = [("M1", "entry"), ("T1", "member"), ("T2", "inline"), ("T1", "types")]
 
 PRIMS = ["char", "int8", "uint8", "int16", "uint16", "int32", "uint32", "int64", "uint64", "float", "double"]
-DESC_CLASSES = ["plain", "dquote", "bslash", "bslashend", "percent", "apos", "qmarks"]
+DESC_CLASSES = ["plain", "dquote", "bslash", "bslashend", "percent", "apos", "qmarks", "newline"]
 
 CONFIGS_QUICK = [("g++", "c++11"), ("clang++", "c++20")]
 CONFIGS_THOROUGH = [(c, s) for c in ("g++", "clang++", "clang++-16") for s in ("c++11", "c++14", "c++17", "c++20", "c++2b")]
